@@ -2,7 +2,10 @@ use crate::alloc::{format, Vec};
 use crate::error::MockError;
 use crate::{debug, MockFnInfo};
 
+#[cfg(not(unimock_verif))]
 use core::{fmt::Display, sync::atomic::AtomicUsize};
+#[cfg(unimock_verif)]
+use {crate::verif::sync::AtomicUsize, core::fmt::Display};
 
 pub(crate) struct CallCounter {
     actual_count: AtomicUsize,
